@@ -126,6 +126,7 @@ pub fn check_ctx(ctx: Option<&mut Ctx>, case: &Case) -> CheckResult {
         if let Some(c) = ctx {
             c.label("any-text:accepted");
         }
+        keywords_are_those_written(kind, text, &v)?;
         return stability(kind, text, &v);
     }
     if let Some(why) = case.invalid {
@@ -154,6 +155,45 @@ pub fn check_ctx(ctx: Option<&mut Ctx>, case: &Case) -> CheckResult {
     // sanity of the generator against the lossless reader (the raw values are what it shows)
     ensure!(Deb822::from_str(text).is_ok(), "lossless-accepts", "the lossless reader rejects the well-formed document {:?}", text);
     stability(kind, text, &v)
+}
+
+/// Fields of a kind whose type is a closed set of keywords written verbatim (yes/no, true/false, priorities, multi-arch values)
+fn keyword_fields(kind: Kind) -> Vec<&'static str> {
+    use crate::gen::kinds::{self as k, Fam};
+    let tables: Vec<&'static [Spec]> = match kind {
+        Kind::Control => vec![k::CONTROL_SOURCE, k::CONTROL_BINARY],
+        Kind::Copyright => vec![],
+        Kind::Release => vec![k::APT_RELEASE],
+        Kind::AptSource => vec![k::APT_SOURCE],
+        Kind::AptPackage => vec![k::APT_PACKAGE],
+        Kind::Removal => vec![],
+        Kind::Buildinfo => vec![],
+        Kind::Dep3 => vec![],
+        Kind::AptSources => vec![k::APT_SOURCES],
+    };
+    tables.iter().flat_map(|t| t.iter()).filter(|s| matches!(s.fam, Fam::YesNo | Fam::BoolTF | Fam::YesNoForce | Fam::Priority | Fam::MultiArch)).map(|s| s.name).collect()
+}
+
+/// A keyword the typed value reports must be the keyword that is written in the text (up to letter case): a reader may
+/// reject other words, but not turn them into a keyword of its own choice.
+fn keywords_are_those_written(kind: Kind, text: &str, v: &Typed) -> CheckResult {
+    let kf = keyword_fields(kind);
+    if kf.is_empty() {
+        return Ok(());
+    }
+    let doc = match Deb822::from_str(text) {
+        Ok(d) => d,
+        Err(_) => return Ok(()),
+    };
+    for img in &v.images {
+        for (name, value) in img {
+            if kf.contains(&name.as_str()) {
+                let written = doc.paragraphs().any(|p| p.get_all(name).any(|raw| raw.trim().eq_ignore_ascii_case(value.trim())));
+                ensure!(written, "keyword-is-the-one-written", "the typed {:?} value reports {}: {:?}, but no {} field of the text {:?} holds that word", kind, name, value, name, text);
+            }
+        }
+    }
+    Ok(())
 }
 
 /// print / reparse stability of a typed value that was read from `text`
@@ -349,7 +389,7 @@ pub fn gen_case(t: &mut Tape, kind: Kind, invalid: bool) -> Case {
 /// reader takes it for a comment (same root cause as KF-C07-hash-line).
 pub const KF_HASH_LINE: &str = "KF-C20-hash-line";
 
-const PERTURBATIONS: &[&str] = &["any-text:random-edits", "any-text:whitespace-only-continuation-line", "any-text:indented-hash-line", "any-text:value-of-another-field", "any-text:folded-value", "any-text:duplicated-field", "any-text:crlf", "any-text:cut", "any-text:multibyte-value", "any-text:hash-token-inside-a-value"];
+const PERTURBATIONS: &[&str] = &["any-text:random-edits", "any-text:whitespace-only-continuation-line", "any-text:indented-hash-line", "any-text:value-of-another-field", "any-text:folded-value", "any-text:duplicated-field", "any-text:crlf", "any-text:cut", "any-text:multibyte-value", "any-text:hash-token-inside-a-value", "any-text:near-miss-word-in-a-keyword-field"];
 
 /// A perturbed document of the given kind: mostly still accepted by the typed reader, no longer "well-formed" in
 /// the sense of the field tables.
@@ -430,6 +470,20 @@ pub fn perturb(t: &mut Tape, kind: Kind, avoid_hash: bool, excluded: &mut u32) -
                 c.into_iter().collect()
             }
         }
+        10 => {
+            // a keyword-typed field (yes/no, true/false, priority, multi-arch) receives a word from a neighbouring vocabulary
+            let kf = keyword_fields(kind);
+            let fl: Vec<usize> = (0..lines.len()).filter(|&i| kf.iter().any(|n| lines[i].starts_with(&format!("{}:", n)))).collect();
+            if fl.is_empty() {
+                base.text.clone()
+            } else {
+                let i = fl[t.below(fl.len())];
+                let w = *t.pick(&["binary-targets", "Yes", "YES", "True", "1", "0", "on", "y", "n", "force", "maybe", "dpkg/target-subcommand", "Optional", "standard ", "source", "any", "Same", "none", "no-such-word"]);
+                let mut l = lines.clone();
+                l[i] = format!("{} {}\n", &l[i][..l[i].find(':').unwrap() + 1], w);
+                l.concat()
+            }
+        }
         6 => base.text.replace('\n', "\r\n"),
         7 => {
             let chars: Vec<char> = base.text.chars().collect();
@@ -470,7 +524,7 @@ impl PropImpl for C20 {
         ]
     }
     fn expected_labels(&self) -> Vec<&'static str> {
-        vec!["kind:control", "kind:copyright", "kind:apt-release", "kind:apt-source", "kind:apt-package", "kind:removal", "kind:buildinfo", "kind:dep3", "kind:apt-sources", "invalid:no-source-paragraph", "invalid:two-source-paragraphs", "invalid:paragraph-of-neither-kind", "invalid:not-starting-with-format", "invalid:missing-mandatory-field", "well-formed", "has-comment", "has-multi-line-value", "dep3-mail-header-form", "any-text:accepted", "any-text:rejected", "any-text:random-edits", "any-text:whitespace-only-continuation-line", "any-text:indented-hash-line", "any-text:value-of-another-field", "any-text:folded-value", "any-text:duplicated-field", "any-text:crlf", "any-text:cut", "any-text:multibyte-value", "any-text:hash-token-inside-a-value"]
+        vec!["kind:control", "kind:copyright", "kind:apt-release", "kind:apt-source", "kind:apt-package", "kind:removal", "kind:buildinfo", "kind:dep3", "kind:apt-sources", "invalid:no-source-paragraph", "invalid:two-source-paragraphs", "invalid:paragraph-of-neither-kind", "invalid:not-starting-with-format", "invalid:missing-mandatory-field", "well-formed", "has-comment", "has-multi-line-value", "dep3-mail-header-form", "any-text:accepted", "any-text:rejected", "any-text:random-edits", "any-text:whitespace-only-continuation-line", "any-text:indented-hash-line", "any-text:value-of-another-field", "any-text:folded-value", "any-text:duplicated-field", "any-text:crlf", "any-text:cut", "any-text:multibyte-value", "any-text:hash-token-inside-a-value", "any-text:near-miss-word-in-a-keyword-field"]
     }
     fn budget(&self, tier: Tier) -> Budget {
         Budget { cases_per_lane: if tier == Tier::Quick { 22500 } else { 90000 }, tape_max: 600, cpu_s: 10 }
